@@ -156,7 +156,7 @@ func (m *Manager) Allocate(ctx context.Context, cni *daemon.CNI, req *AllocReque
 	for _, request := range req.ResourceRequests {
 		// a request that names the eni the pod already uses has to reach that eni before an
 		// empty slot (which accepts any request) does, so do not put the emptiest first
-		if r, ok := request.(*LocalIPRequest); ok && r.NetworkInterfaceID != "" {
+		if r, ok := request.(*LocalIPRequest); ok && (r.NetworkInterfaceID != "" || r.NetworkInterfaceMAC != "") {
 			selectionPolicy = daemon.EniSelectionPolicyMostIPs
 		}
 	}
